@@ -237,8 +237,8 @@ type c35Rec struct {
 	Second   string   `json:"second"`
 	Third    string   `json:"third"`
 	Removes  int      `json:"removes"`
-	Err      string   `json:"err"`
-	VirtualS int      `json:"virtual_s"`
+	Err      string   `json:"err,omitempty"`
+	VirtualS int      `json:"virtual_s,omitempty"`
 }
 
 func c35Run(t *testing.T, v c35Vec, flag, fast bool, size int) c35Rec {
@@ -386,8 +386,8 @@ func TestVerif_C35(t *testing.T) {
 		n++
 		for _, flag := range []bool{true, false} {
 			nsz := 1
-			if kit.Thorough() {
-				nsz = 2
+			if kit.Thorough() && (v.Op == "save" || v.Op == "load") {
+				nsz = 2 // the payload size only matters where data flows
 			}
 			for k := 0; k < nsz; k++ {
 				size := sizes[0]
